@@ -13,7 +13,7 @@ LEVEL_NOTE = ("Model fidelity is checked, not proved (correspondence on window e
               "formulas against the same model). Observed agreement of built-in indices: bit-exact. The model's coefficient "
               "table is the reference for 'the published equation' (cross-read against the crate's doc comments; no network). "
               "Theorems are about real arithmetic; rounding is measured only. No lower-layer inputs are passed in.")
-OPS = {"indices", "indices_expr", "meta", "all_meta", "from_string", "to_string", "serde"}
+OPS = {"indices", "indices_expr", "meta", "all_meta", "from_string", "from_string_hex", "parse_form", "to_string", "serde"}
 TOL = {"indices": ("ulp", 2), "indices_expr": ("ulp", 16)}
 DEFAULT_TOL = ("exact",)
 # the model of these ops IS "the crystal's published Sellmeier and thermo-optic equation": a disagreement is a failing input
@@ -26,7 +26,11 @@ RULE = ("family crystal: per crystal window edges ±2 ulp and 1.2 µm ±3 ulp ×
         "wavelengths and n/4 round-nm wavelengths × fixed/random T; 13 user expressions (CrystalType::Expr transcribed from the "
         "same formulas, KTP one per n_y branch) evaluated on ONE shared 2n-point (λ,T) grid, interleaved crystal by crystal per point "
         "(second half in reverse crystal order), each against the built-in on the real code (16 ulp) and against the model; a sample "
-        "of ≤ 12 000 earlier evaluations re-evaluated at the end newest-first then oldest-first, bit-exact (history independence); all META records, ids, near-miss id strings, serde; predicate grid 2 000 (quick) / 50 000 (thorough) "
+        "of ≤ 12 000 earlier evaluations re-evaluated at the end newest-first then oldest-first, bit-exact (history independence); all META records, ids, near-miss id strings, serde; every expression crystal in ~60 textual layouts (strict JSON compact / pretty / doc-example layout / leading-trailing "
+        "whitespace, newlines, tabs, CRLF / key order / spaced formulas; HJSON trailing commas, quoteless keys and values, comments, single quotes; the "
+        "`name = expression` line form in its layouts) through from_string, FromStr and — strict JSON — serde_json and CrystalConfig: documented layouts must "
+        "build the crystal and return bit-identical indices to the compact form and the built-in's within 16 ulp (C01.text_forms), accept/reject outcome of "
+        "every layout against the model's table (parse_form); identifiers with whitespace / case / quotes against the model's exact-match parser (from_string_hex); predicate grid 2 000 (quick) / 50 000 (thorough) "
         "wavelengths per crystal and temperature (4 fixed + 2/6 random), temperature law on 300/4 000 random (λ, T) per crystal")
 CHECKER_MODULES = ["Spdc.Real.CrystalLemmas", "Spdc.Real.CrystalAxes", "Spdc.Real.CrystalCert", "Spdc.Real.CrystalClass"]
 TRUSTED_EXTRA = ["tools/c01_cert.py only proposes partition points (untrusted); every chain is re-evaluated by the Lean kernel (decide +kernel on the ℚ instance of the model)",
